@@ -6,7 +6,7 @@ Everything is a pure function of the RandomState handed in, so a case spec
 import numpy as np
 
 VARIANTS = ['plain', 'unbalanced', 'offset', 'small_scale', 'large_scale',
-            'illcond', 'dyadic', 'int', 'separated']
+            'illcond', 'dyadic', 'int', 'separated', 'coplanar', 'illcond5']
 
 
 def random_orthogonal(rng, d):
@@ -44,9 +44,19 @@ def well_formed(rng, d=None, n_classes=None, variant='plain', dmax=8,
   s = np.exp(rng.uniform(np.log(0.5), np.log(2.0), size=d))
   if variant == 'illcond':
     s = np.logspace(0, -3, d)
+  if variant == 'illcond5':
+    # one direction with a within-class spread 1e5 times smaller than the
+    # class separation: whitening magnifies it, and discriminant analyses
+    # with a relative rank tolerance keep fewer directions than classes - 1
+    s = np.logspace(0, -5, d)
   R = random_orthogonal(rng, d)
   # ('separated': classes far apart, so that margin violations are sparse)
   shifts = rng.randn(c, d) * (6.0 if variant == 'separated' else 1.5)
+  if variant == 'coplanar':
+    # class means in a common hyperplane (e.g. four classes in three
+    # dimensions whose means are coplanar): between-class scatter of rank
+    # d - 1 although there are d + 1 classes; the data itself is full rank
+    shifts[:, -1] = shifts[0, -1]
   X = (rng.randn(n, d) * s).dot(R) + shifts[y]
   if variant == 'offset':
     X = X + 1e3
